@@ -564,7 +564,15 @@ func execDeb(vec J, out *Writer) {
 				hang = true
 			}
 		}
-		out.Put(J{"ev": "debraw", "in": vec, "len": len(b), "ids": ids, "hang": hang})
+		rec := J{"ev": "debraw", "in": vec, "len": len(b), "ids": ids, "hang": hang}
+		if (vec["op"] == "none" || vec["op"] == "extra_member") && !hang {
+			// the same bytes loaded twice and BOTH left open while their payloads are read file by file in turn
+			if first, id := loadOnce(b, nil); id != "error" && id != "panic" {
+				rec["tar_first"] = first["tar"]
+				rec["overlap"] = overlappingLoads(b)
+			}
+		}
+		out.Put(rec)
 	default:
 		die("deb: unknown vector kind %v", vec["k"])
 	}
